@@ -79,7 +79,9 @@ func rulesC19(c *Ctx) {
 		"R19.1 registry consistency: a suite entry built for an acknowledgement type is flagged RequiresFIBACK exactly when that type is FIB; every exported test function of the package is registered",
 		"R19.2 clean-up pairing: every registered test that programs entries flushes the server afterwards on every non-fatal path (deferred before the first programming step, or explicit)",
 		"R19.3 election ids only move forward: a test leaves the shared counter above every id it announced, and an id below the counter is only used where the counter is provably at least that much above 1",
-		"R19.4 every registered test can fail: it reaches a verdict (chk.*, t.Fatal*/Error*) that is not cut off by an unconditional Skip")
+		"R19.4 every registered test can fail: it reaches a verdict (chk.*, t.Fatal*/Error*) that is not cut off by an unconditional Skip",
+		"R19.5 configuration set through the exported setters is read when a test runs: no package-level initialiser or init function reads a configurable variable",
+		"R19.6 a result assertion inside a loop depends on the iteration (otherwise one acknowledgement satisfies every iteration and a repeated operation is never examined)")
 	c.NotDec = append(c.NotDec, "actual pass/fail of any test against any server — that is an execution", "the fault catalogue: whether each requirement's tests detect a server violating it")
 	entries := suiteEntries(c)
 	if len(entries) < 75 {
@@ -91,6 +93,8 @@ func rulesC19(c *Ctx) {
 	ruleCleanup(c, entries)
 	ruleElectionForward(c, entries)
 	ruleCanFail(c, entries)
+	ruleConfigAtCallTime(c)
+	ruleVerdictPerIteration(c)
 }
 
 func ruleRegistryFIB(c *Ctx, entries []regEntry) {
@@ -351,30 +355,48 @@ func ruleElectionForward(c *Ctx, entries []regEntry) {
 			continue
 		}
 		done[fi.Obj] = true
+		if isSimpleHelperDecl(fi.Decl) {
+			continue // a `return <expr>` helper: its reads are attributed to its call sites
+		}
 		info := fi.Pkg.TypesInfo
 		var use electionUse
 		loads := 0
-		ast.Inspect(fi.Decl.Body, func(m ast.Node) bool {
-			switch x := m.(type) {
-			case *ast.BinaryExpr:
-				if call, ok := ast.Unparen(x.X).(*ast.CallExpr); ok && isElectionIDCall(info, call, "Load") {
-					if k, isC := constInt(info, x.Y); isC {
-						if x.Op == token.ADD {
-							use.plus = append(use.plus, k)
-						}
-						if x.Op == token.SUB {
-							use.minus = append(use.minus, k)
-							use.minusPos = append(use.minusPos, x.Pos())
+		var scan func(info *types.Info, root ast.Node, at token.Pos, depth int)
+		scan = func(info *types.Info, root ast.Node, at token.Pos, depth int) {
+			ast.Inspect(root, func(m ast.Node) bool {
+				switch x := m.(type) {
+				case *ast.BinaryExpr:
+					if call, ok := ast.Unparen(x.X).(*ast.CallExpr); ok && isElectionIDCall(info, call, "Load") {
+						if k, isC := constInt(info, x.Y); isC {
+							if x.Op == token.ADD {
+								use.plus = append(use.plus, k)
+							}
+							if x.Op == token.SUB {
+								use.minus = append(use.minus, k)
+								if at != token.NoPos {
+									use.minusPos = append(use.minusPos, at)
+								} else {
+									use.minusPos = append(use.minusPos, x.Pos())
+								}
+							}
 						}
 					}
+				case *ast.CallExpr:
+					if isElectionIDCall(info, x, "Load") {
+						loads++
+					}
+					if hfi, ret := simpleHelper(info, x); hfi != nil && depth < 3 {
+						pos := at
+						if pos == token.NoPos {
+							pos = x.Pos()
+						}
+						scan(hfi.Pkg.TypesInfo, ret, pos, depth+1)
+					}
 				}
-			case *ast.CallExpr:
-				if isElectionIDCall(info, x, "Load") {
-					loads++
-				}
-			}
-			return true
-		})
+				return true
+			})
+		}
+		scan(info, fi.Decl.Body, token.NoPos, 0)
 		if loads == 0 {
 			continue
 		}
@@ -504,4 +526,166 @@ func ruleCanFail(c *Ctx, entries []regEntry) {
 	}
 	c.floor(rule, "distinct registered test functions", n, 60)
 	sort.Strings(nil)
+}
+
+// R19.5 configuration is read when a test runs, not when the package is
+// initialised: the package-level variables that the exported setters assign
+// (network instance names, …) are not read by any package-level initialiser or
+// init function — a value captured there ignores a later SetXXX, so part of a
+// test would address one instance and the rest another.
+func ruleConfigAtCallTime(c *Ctx) {
+	const rule = "CONFIG-AT-CALL-TIME"
+	pk := c.P.pkg("compliance")
+	if pk == nil {
+		c.vanished(rule, "compliance", "package", "package not loaded")
+		return
+	}
+	info := pk.TypesInfo
+	// configuration variables: package-level vars assigned inside a function
+	conf := map[types.Object]string{}
+	for _, f := range pk.Syntax {
+		for _, d := range f.Decls {
+			fd, ok := d.(*ast.FuncDecl)
+			if !ok || fd.Body == nil || fd.Name.Name == "init" {
+				continue
+			}
+			ast.Inspect(fd.Body, func(n ast.Node) bool {
+				if as, ok := n.(*ast.AssignStmt); ok && as.Tok == token.ASSIGN {
+					for _, l := range as.Lhs {
+						if v, ok := objOfIdent(info, l).(*types.Var); ok && v.Parent() == pk.Types.Scope() {
+							conf[v] = fd.Name.Name
+						}
+					}
+				}
+				return true
+			})
+		}
+	}
+	if len(conf) == 0 {
+		c.vanished(rule, "compliance", "configuration variables", "no package-level variable is assigned by a function (SetDefaultNetworkInstanceName … expected)")
+		return
+	}
+	n := 0
+	reads := func(root ast.Node, where string, pos token.Pos) {
+		var hit []string
+		ast.Inspect(root, func(m ast.Node) bool {
+			if _, isLit := m.(*ast.FuncLit); isLit {
+				return false // a closure body runs later, when it is called
+			}
+			if id, ok := m.(*ast.Ident); ok {
+				if setter, ok := conf[info.Uses[id]]; ok {
+					hit = append(hit, id.Name+" (set by "+setter+")")
+				}
+			}
+			return true
+		})
+		n++
+		c.Sites++
+		c.check(len(hit) == 0, rule, "compliance", where, c.P.pos(pos), "reads no configurable variable at initialisation", "initialised once from "+strings.Join(hit, ", ")+": a later call of the setter is ignored here while the rest of the suite follows it")
+	}
+	for _, f := range pk.Syntax {
+		for _, d := range f.Decls {
+			switch x := d.(type) {
+			case *ast.GenDecl:
+				if x.Tok != token.VAR {
+					continue
+				}
+				for _, sp := range x.Specs {
+					vs := sp.(*ast.ValueSpec)
+					for i, v := range vs.Values {
+						name := "?"
+						if i < len(vs.Names) {
+							name = vs.Names[i].Name
+						}
+						if name == "TestSuite" {
+							// the registry holds functions; its closures run at test time (checked separately)
+						}
+						reads(v, "initialiser of "+name, v.Pos())
+					}
+				}
+			case *ast.FuncDecl:
+				if x.Name.Name == "init" && x.Recv == nil && x.Body != nil {
+					reads(x.Body, "init function", x.Pos())
+				}
+			}
+		}
+	}
+	c.floor(rule, "package-level initialisers examined", n, 3)
+}
+
+// R19.6 no verdict is asked twice of the same evidence: a chk result assertion
+// inside a loop whose arguments do not depend on the iteration is satisfied by
+// the same acknowledgement every time, so the iterations after the first
+// assert nothing (a repeated operation is then never examined).
+func ruleVerdictPerIteration(c *Ctx) {
+	const rule = "VERDICT-PER-ITERATION"
+	n, loops := 0, 0
+	for _, fi := range c.P.AllFuncs("compliance") {
+		if fi.Decl.Body == nil {
+			continue
+		}
+		info := fi.Pkg.TypesInfo
+		var visit func(n ast.Node, loopStack []ast.Node)
+		declaredIn := func(o types.Object, loop ast.Node) bool {
+			return o != nil && o.Pos() >= loop.Pos() && o.Pos() < loop.End()
+		}
+		visit = func(root ast.Node, loopStack []ast.Node) {
+			ast.Inspect(root, func(m ast.Node) bool {
+				if m == root {
+					return true
+				}
+				switch x := m.(type) {
+				case *ast.FuncLit:
+					// a closure defined in a loop is a different execution context; its own loops are visited
+					visit(x.Body, nil)
+					return false
+				case *ast.ForStmt:
+					loops++
+					visit(x, append(append([]ast.Node{}, loopStack...), x))
+					return false
+				case *ast.RangeStmt:
+					loops++
+					visit(x, append(append([]ast.Node{}, loopStack...), x))
+					return false
+				case *ast.CallExpr:
+					f, ok := calleeObj(info, x).(*types.Func)
+					if !ok || f.Pkg() == nil || f.Pkg().Path() != chkPkg || !strings.HasPrefix(f.Name(), "Has") || len(loopStack) == 0 {
+						return true
+					}
+					n++
+					c.Sites++
+					loop := loopStack[len(loopStack)-1]
+					varies := false
+					for _, a := range x.Args {
+						ast.Inspect(a, func(k ast.Node) bool {
+							switch y := k.(type) {
+							case *ast.Ident:
+								if o := info.Uses[y]; o != nil {
+									if _, isVar := o.(*types.Var); isVar && declaredIn(o, loop) {
+										varies = true
+									}
+								}
+							case *ast.CallExpr:
+								// a call that is not a builder / option constructor may fetch new evidence
+								if g, ok := calleeObj(info, y).(*types.Func); ok && g.Pkg() != nil {
+									switch g.Pkg().Path() {
+									case modPath + "/fluent", chkPkg, modPath + "/constants":
+									default:
+										varies = true
+									}
+								} else {
+									varies = true
+								}
+							}
+							return true
+						})
+					}
+					c.check(varies, rule, fi.Name, "assertion in a loop: "+f.Name()+" #"+itoa(n), c.P.pos(x.Pos()), "arguments depend on the iteration", "chk."+f.Name()+" is called in a loop with arguments that are the same on every iteration: the result that satisfies the first iteration satisfies all of them, so the repeated operation is never examined")
+				}
+				return true
+			})
+		}
+		visit(fi.Decl.Body, nil)
+	}
+	c.note("VERDICT-PER-ITERATION: %d loops in package compliance, %d chk assertions inside loops", loops, n)
 }
